@@ -258,19 +258,28 @@ func coqAddrs(as []ethcomm.Address) string {
 // ---------- fingerprint (Corr/C08.v: mix, digest) ----------
 
 var (
-	p61   = big.NewInt(2305843009213693951)
+	m61   = big.NewInt(2305843009213693951)
 	dbase = big.NewInt(1000000007)
 	one   = big.NewInt(1)
 )
 
+// red61 mirrors Corr/C08.v red61: fold 61-bit limbs until the value is at most 2^61-1.
+func red61(x *big.Int) *big.Int {
+	x = new(big.Int).Set(x)
+	for fuel := 24; fuel > 0 && x.Cmp(m61) > 0; fuel-- {
+		lo := new(big.Int).And(x, m61)
+		x = lo.Add(lo, new(big.Int).Rsh(x, 61))
+	}
+	return x
+}
+
 func digest(seed int64, l []*big.Int) *big.Int {
 	h := big.NewInt(seed)
-	t := new(big.Int)
 	for _, x := range l {
-		h.Mul(h, dbase)
-		h.Add(h, t.Mod(x, p61))
-		h.Add(h, one)
-		h.Mod(h, p61)
+		t := new(big.Int).Mul(h, dbase)
+		t.Add(t, red61(x))
+		t.Add(t, one)
+		h = red61(t)
 	}
 	return h
 }
